@@ -4,6 +4,7 @@ import (
 	"context"
 	"encoding/json"
 	"fmt"
+	"io"
 	"os"
 	"os/exec"
 	"path/filepath"
@@ -140,8 +141,15 @@ func (c *checker) runWorker(gomaxprocs int, timeout time.Duration, extra ...stri
 	defer os.Remove(out)
 	if logs, _ := filepath.Glob(racePrefix + ".*"); len(logs) > 0 {
 		for _, l := range logs {
-			b, _ := os.ReadFile(l)
-			jr.raceLog += string(b)
+			// only the first reports matter; a racy tree can write hundreds of megabytes
+			if f, err := os.Open(l); err == nil {
+				buf := make([]byte, 256<<10)
+				n, _ := io.ReadFull(f, buf)
+				f.Close()
+				if len(jr.raceLog) < 512<<10 {
+					jr.raceLog += string(buf[:n])
+				}
+			}
 			os.Remove(l)
 		}
 	}
@@ -353,6 +361,32 @@ func cmdCheck(prop, tier string, seed uint64, runsOverride int, keep bool) int {
 	fmt.Printf("explored: %d runs (%d non-trivial, %d distinct signatures kept), %d steps, %d context switches, %.1fs\n",
 		m.Runs, m.Nontrivial, len(m.Sigs), m.Steps, m.Switches, explWall)
 
+	// ---- secondary engine (C19): the uninstrumented package inside testing/synctest bubbles
+	var cross *crossResult
+	if cfg.Synctest {
+		bubbles := int64(2000)
+		if tier == "thorough" {
+			bubbles = 100000
+		}
+		cr, err := runSynctest(b, seed, bubbles, c.par)
+		if err != nil {
+			fmt.Fprintln(os.Stderr, "MACHINERY:", err)
+			return 2
+		}
+		cross = cr
+		fmt.Printf("synctest cross-check (%s): %d bubbles, %d clock reads checked, %d midnight crossings, %d violation(s)\n", cr.GoVersion, cr.Bubbles, cr.Reads, cr.Crossings, len(cr.Violations))
+		for _, v := range cr.Violations {
+			parts := strings.SplitN(v, "|", 3)
+			var bub int
+			fmt.Sscan(parts[1], &bub)
+			m.Violations = append(m.Violations, Violation{Property: cfg.ID, Oracle: "synctest cross-check on the uninstrumented package", Class: parts[0], Detail: parts[2] + " (bubble " + parts[1] + "; replay: CROSS_FROM=" + parts[1] + " CROSS_TO=" + fmt.Sprint(bub+1) + ")", Run: -1 - bub})
+		}
+		if cr.Reads == 0 {
+			fmt.Fprintln(os.Stderr, "MACHINERY: synctest engine checked nothing")
+			return 2
+		}
+	}
+
 	// ---- determinism guard: re-execute a sample of chunks in a second process at another GOMAXPROCS
 	detChunks := 2
 	if tier == "thorough" {
@@ -416,10 +450,15 @@ func cmdCheck(prop, tier string, seed uint64, runsOverride int, keep bool) int {
 		count int
 	}
 	groups := map[string]*group{}
+	chunkRaceClass := map[int]string{}
 	for _, v := range m.Violations {
 		cls := v.Class
 		if cls == "race" {
-			cls = raceClass(m.RaceLogs[(v.Run/chunk)*chunk])
+			cf := (v.Run / chunk) * chunk
+			if _, ok := chunkRaceClass[cf]; !ok {
+				chunkRaceClass[cf] = raceClass(m.RaceLogs[cf])
+			}
+			cls = chunkRaceClass[cf]
 			v.Class = cls
 		}
 		g, ok := groups[cls]
@@ -481,7 +520,7 @@ func cmdCheck(prop, tier string, seed uint64, runsOverride int, keep bool) int {
 			rf := ReplayFile{Property: cfg.ID, Scenario: cfg.Scenario, Tier: tier, Opt: cfg.Opt, BatchSeed: seed, Class: cls,
 				CrossIndex: d.Index, CrossWhat: d.What, CrossChunkA: d.ChunkA, CrossChunkB: d.ChunkB, CrossA: d.A, CrossB: d.B,
 				Note: "two worker processes evaluated the same corpus entry (same text, equal data, fresh runner) in pristine processes but after different other entries, and disagree; replay re-executes both processes' baselines"}
-			path := filepath.Join(verifDir, "replays", fmt.Sprintf("%s-%d-cross-process-%d.json", cfg.ID, seed, d.Index))
+			path := filepath.Join(replayDir(), fmt.Sprintf("%s-%d-cross-process-%d.json", cfg.ID, seed, d.Index))
 			writeJSON(path, rf)
 			fmt.Printf("violation class %s (%d corpus entries): %s: process of chunk %d: %s ; process of chunk %d: %s\n", cls, len(idx), oneLine(d.What, 300), d.ChunkA, oneLine(d.A, 300), d.ChunkB, oneLine(d.B, 300))
 			line := fmt.Sprintf("VIOLATION property=%s replay=%s", cfg.ID, path)
@@ -562,11 +601,16 @@ func cmdCheck(prop, tier string, seed uint64, runsOverride int, keep bool) int {
 			"reach_failures":                            reachFail,
 		},
 	}
-	if err := writeJSON(filepath.Join(verifDir, "evidence", cfg.ID+".json"), ev); err != nil {
+	if cross != nil {
+		ev["coverage"].(map[string]interface{})["synctest_cross_check"] = map[string]interface{}{
+			"engine": "uninstrumented package inside testing/synctest bubbles, " + cross.GoVersion, "bubbles": cross.Bubbles, "clock_reads_checked": cross.Reads,
+			"midnight_crossings_by_sleep": cross.Crossings, "zones": cross.Zones, "fake_clock_span": map[string]string{"min": cross.ClockMin, "max": cross.ClockMax}, "violations": len(cross.Violations)}
+	}
+	if err := writeJSON(filepath.Join(evidenceDir(), cfg.ID+".json"), ev); err != nil {
 		fmt.Fprintln(os.Stderr, "MACHINERY: cannot write evidence:", err)
 		return 2
 	}
-	fmt.Printf("faults fired: %v\nprobes: %v\ndropped: %v\nevidence: %s (%.1fs)\n", m.Faults, m.Probes, m.Dropped, filepath.Join(verifDir, "evidence", cfg.ID+".json"), wall)
+	fmt.Printf("faults fired: %v\nprobes: %v\ndropped: %v\nevidence: %s (%.1fs)\n", m.Faults, m.Probes, m.Dropped, filepath.Join(evidenceDir(), cfg.ID+".json"), wall)
 	if exit == 0 && len(reachFail) > 0 {
 		fmt.Fprintf(os.Stderr, "MACHINERY: required probes never hit: %v - the run explored nothing relevant; no verdict\n", reachFail)
 		return 2
